@@ -441,7 +441,12 @@ func (f *c18fn) nestedCalls(e ast.Node, skip *ast.CallExpr) []*irStmt {
 			if m == nil {
 				return false
 			}
-			if _, ok := m.(*ast.FuncLit); ok {
+			if fl, ok := m.(*ast.FuncLit); ok {
+				// a closure is not followed; if it touches state it is recorded as ONE opaque leaf on the outer context, so
+				// that it shows up in (and breaks) the designated outcome instead of silently disappearing
+				if inner := f.closureTouches(fl); inner != "" {
+					out = append(out, &irStmt{K: "call", Name: f.p.leafName("closure: "+inner, fl.Pos()), Ctx: "outer"})
+				}
 				return false
 			}
 			ce, ok := m.(*ast.CallExpr)
@@ -464,6 +469,33 @@ func (f *c18fn) nestedCalls(e ast.Node, skip *ast.CallExpr) []*irStmt {
 	}
 	walk(e)
 	return out
+}
+
+// closureTouches returns the name of the first state-touching call (or commit) inside a function literal, "" if none.
+func (f *c18fn) closureTouches(fl *ast.FuncLit) string {
+	res := ""
+	ast.Inspect(fl.Body, func(m ast.Node) bool {
+		if res != "" {
+			return false
+		}
+		ce, ok := m.(*ast.CallExpr)
+		if !ok {
+			return true
+		}
+		if id, ok := ce.Fun.(*ast.Ident); ok && id.Obj != nil && (f.commitObjs[id.Obj]) {
+			res = id.Name + "()"
+			return false
+		}
+		if len(ce.Args) > 0 {
+			name := f.p.c.src(ce.Fun)
+			if cx := f.ctxOf(ce.Args[0]); cx != "" && !c18Skipped(name) {
+				res = name
+				return false
+			}
+		}
+		return true
+	})
+	return res
 }
 
 // call translates one call expression (not its nested calls). force: emit a pure leaf even without a context argument
@@ -767,6 +799,20 @@ func (f *c18fn) cases(tag ast.Expr, tagText string, clauses []ast.Stmt, typeSwit
 	return &irStmt{K: "block", A: res}
 }
 
+// c18Deferred: a deferred state-touching call (or a deferred commit) runs at function exit on every path; it is
+// recorded at the defer point as an opaque leaf on the outer context (fail-safe: it breaks the designated outcome).
+func c18Deferred(c *irStmt) *irStmt {
+	switch c.K {
+	case "call":
+		return &irStmt{K: "call", Name: "defer: " + c.Name, Ctx: "outer"}
+	case "commit":
+		return &irStmt{K: "call", Name: fmt.Sprintf("defer: commit of cache %d", c.ID), Ctx: "outer"}
+	case "inl":
+		return &irStmt{K: "call", Name: "defer: " + c.Name, Ctx: "outer"}
+	}
+	return c
+}
+
 func (f *c18fn) stmts(list []ast.Stmt) *irStmt {
 	p := f.p
 	var out []*irStmt
@@ -890,18 +936,12 @@ func (f *c18fn) stmts(list []ast.Stmt) *irStmt {
 				}
 				// other deferred closures: state-touching calls inside them run at function exit; recorded at the defer point
 				for _, c := range f.nestedCalls(fl.Body, nil) {
-					if c.K == "call" {
-						c.Name = "defer: " + c.Name
-					}
-					out = append(out, c)
+					out = append(out, c18Deferred(c))
 				}
 				continue
 			}
 			for _, c := range f.nestedCalls(s.Call, nil) {
-				if c.K == "call" {
-					c.Name = "defer: " + c.Name
-				}
-				out = append(out, c)
+				out = append(out, c18Deferred(c))
 			}
 		case *ast.GoStmt, *ast.IncDecStmt, *ast.EmptyStmt:
 		default:
